@@ -18,39 +18,41 @@ import (
 func c20Root() J {
 	ref := func(n string) J { return J{"$ref": "#/definitions/" + n} }
 	return J{
-		"prim":       J{"type": "string"},
-		"num":        J{"type": "number"},
-		"fmtd":       J{"type": "string", "format": "date-time"},
-		"fmtOnly":    J{"format": "uuid"},
-		"enumd":      J{"type": "string", "enum": []any{"a", "b"}},
-		"emptyobj":   J{"type": "object"},
-		"anything":   J{},
-		"obj":        J{"type": "object", "properties": J{"a": J{"type": "string"}}},
-		"objNoType":  J{"properties": J{"a": J{"type": "integer"}}},
-		"mapd":       J{"type": "object", "additionalProperties": J{"type": "string"}},
-		"mapAny":     J{"type": "object", "additionalProperties": true},
-		"mapOfObj":   J{"type": "object", "additionalProperties": ref("obj")},
-		"extobj":     J{"type": "object", "properties": J{"a": J{"type": "string"}}, "additionalProperties": J{"type": "string"}},
-		"arr":        J{"type": "array", "items": J{"type": "string"}},
-		"arrNoItems": J{"type": "array"},
-		"arrOfObj":   J{"type": "array", "items": ref("obj")},
-		"tuple":      J{"type": "array", "items": []any{J{"type": "string"}, J{"type": "integer"}}},
-		"tupleExtra": J{"type": "array", "items": []any{J{"type": "string"}}, "additionalItems": J{"type": "integer"}},
-		"tupleAny":   J{"type": "array", "items": []any{J{"type": "string"}}, "additionalItems": true},
-		"allofd":     J{"allOf": []any{ref("obj"), J{"type": "object", "properties": J{"b": J{"type": "string"}}}}},
-		"disc":       J{"type": "object", "discriminator": "kind", "properties": J{"kind": J{"type": "string"}}},
-		"alias":      ref("obj"),
-		"aliasArr":   ref("arr"),
-		"alias2":     ref("alias"),
-		"node":       J{"type": "object", "properties": J{"next": ref("node")}},
-		"ma":         J{"type": "object", "properties": J{"b": ref("mb")}},
-		"mb":         J{"type": "object", "properties": J{"a": ref("ma")}},
-		"arrSelf":    J{"type": "array", "items": ref("arrSelf")},
-		"mapSelf":    J{"type": "object", "additionalProperties": ref("mapSelf")},
-		"arrMapA":    J{"type": "array", "items": ref("arrMapB")},
-		"arrMapB":    J{"type": "object", "additionalProperties": ref("arrMapA")},
-		"aliasSelf":  ref("arrSelf"),
-		"arrOfNode":  J{"type": "array", "items": ref("node")},
+		"prim":        J{"type": "string"},
+		"num":         J{"type": "number"},
+		"fmtd":        J{"type": "string", "format": "date-time"},
+		"fmtOnly":     J{"format": "uuid"},
+		"enumd":       J{"type": "string", "enum": []any{"a", "b"}},
+		"emptyobj":    J{"type": "object"},
+		"anything":    J{},
+		"obj":         J{"type": "object", "properties": J{"a": J{"type": "string"}}},
+		"objNoType":   J{"properties": J{"a": J{"type": "integer"}}},
+		"mapd":        J{"type": "object", "additionalProperties": J{"type": "string"}},
+		"mapAny":      J{"type": "object", "additionalProperties": true},
+		"mapOfObj":    J{"type": "object", "additionalProperties": ref("obj")},
+		"extobj":      J{"type": "object", "properties": J{"a": J{"type": "string"}}, "additionalProperties": J{"type": "string"}},
+		"arr":         J{"type": "array", "items": J{"type": "string"}},
+		"arrNoItems":  J{"type": "array"},
+		"arrOfObj":    J{"type": "array", "items": ref("obj")},
+		"tuple":       J{"type": "array", "items": []any{J{"type": "string"}, J{"type": "integer"}}},
+		"tupleExtra":  J{"type": "array", "items": []any{J{"type": "string"}}, "additionalItems": J{"type": "integer"}},
+		"tupleAny":    J{"type": "array", "items": []any{J{"type": "string"}}, "additionalItems": true},
+		"allofd":      J{"allOf": []any{ref("obj"), J{"type": "object", "properties": J{"b": J{"type": "string"}}}}},
+		"disc":        J{"type": "object", "discriminator": "kind", "properties": J{"kind": J{"type": "string"}}},
+		"allofExt":    J{"allOf": []any{ref("obj")}, "additionalProperties": J{"type": "string"}},
+		"allofExtAny": J{"type": "object", "allOf": []any{ref("obj")}, "additionalProperties": true},
+		"alias":       ref("obj"),
+		"aliasArr":    ref("arr"),
+		"alias2":      ref("alias"),
+		"node":        J{"type": "object", "properties": J{"next": ref("node")}},
+		"ma":          J{"type": "object", "properties": J{"b": ref("mb")}},
+		"mb":          J{"type": "object", "properties": J{"a": ref("ma")}},
+		"arrSelf":     J{"type": "array", "items": ref("arrSelf")},
+		"mapSelf":     J{"type": "object", "additionalProperties": ref("mapSelf")},
+		"arrMapA":     J{"type": "array", "items": ref("arrMapB")},
+		"arrMapB":     J{"type": "object", "additionalProperties": ref("arrMapA")},
+		"aliasSelf":   ref("arrSelf"),
+		"arrOfNode":   J{"type": "array", "items": ref("node")},
 	}
 }
 
@@ -85,6 +87,7 @@ func c20Compose(children []J) []J {
 			J{"type": "array", "items": []any{c, J{"type": "string"}}},
 			J{"type": "array", "items": []any{J{"type": "string"}}, "additionalItems": c},
 			J{"allOf": []any{c, J{"type": "object", "properties": J{"q": J{"type": "string"}}}}},
+			J{"allOf": []any{J{"type": "object", "properties": J{"q": J{"type": "string"}}}}, "additionalProperties": c},
 		)
 	}
 	return out
@@ -100,8 +103,8 @@ func flagsOf(a *analysis.AnalyzedSchema) c20Flags {
 
 // refclass: the documented rules, evaluated on generic JSON with $refs followed through the root definitions.
 type c20Class struct {
-	Complex, Array, Map, Tuple, TupleWithExtra, Enum, Known bool
-	Determined                                            bool
+	Complex, Array, Map, Tuple, TupleWithExtra, Enum, Known, Extended bool
+	Determined                                                        bool
 }
 
 func refclass(s map[string]any, defs map[string]any) c20Class {
@@ -131,6 +134,7 @@ func refclass(s map[string]any, defs map[string]any) c20Class {
 	c.TupleWithExtra = tuple && addItems
 	c.Array = typ == "array" && !tuple
 	c.Map = isObj && addProps && !props && !allOf
+	c.Extended = isObj && addProps && (props || allOf)
 	switch typ {
 	case "string", "integer", "number", "boolean":
 		c.Known = true
@@ -236,6 +240,8 @@ func c20Check(schemaJSON string, pol mcrt.Policy) (sig, what string, nontrivial 
 				sig = "IsArray differs from the documented rule"
 			case f.Map != c.Map:
 				sig = "IsMap differs from the documented rule"
+			case f.ExtendedObject != c.Extended:
+				sig = "IsExtendedObject differs from the documented rule"
 			case f.Tuple != c.Tuple || f.TupleWithExtra != c.TupleWithExtra:
 				sig = "tuple flags differ from the documented rule"
 			case f.Enum != c.Enum:
